@@ -293,8 +293,12 @@ fn half_life_case(ctx: &mut Ctx, rng: &mut Rng, x: &Series, label: &str) {
     };
     let mpe = mp.unwrap_or(len / 2);
     let sv = SpyVec::new(enc_f64(x));
-    let log2 = (usize::BITS - len.max(1).leading_zeros()) as u64;
-    let budget = 4 * (log2 + 2) + 8;
+    // "always terminates", restated as bounded progress in logical steps: no more than a constant
+    // number of passes over the data per candidate lag (there are len - 1 of them). The first
+    // version of this budget, 4 (log2 len + 2) + 8, was the bisection's own step count and fired on
+    // a correct implementation that probes the first 32 lags one by one (property-preserving
+    // change Q20).
+    let budget = 4 * len as u64 + 64;
     sv.pass_budget.set(budget);
     ctx.evaluations += 1;
     ctx.events += 1;
@@ -305,7 +309,7 @@ fn half_life_case(ctx: &mut Ctx, rng: &mut Rng, x: &Series, label: &str) {
     match r {
         Err(p) => {
             if p.contains("SPY-BUDGET") {
-                ctx.violation("half_life/no_bounded_progress", || format!("more than {budget} passes over the data (bisection does not converge); {}", d()));
+                ctx.violation("half_life/no_bounded_progress", || format!("more than {budget} passes over the data for {len} elements (the search does not converge); {}", d()));
             } else if is_marked_panic(&p) {
                 ctx.violation(&format!("half_life/memory/{}", panic_key(&p)), || format!("{p}; {}", d()));
             } else {
